@@ -1221,53 +1221,45 @@ struct TemplateCore {
             SizeT last_index = 0;
 
             while (index < length) {
-                if (content[index] == TagPatterns::InLineFirstChar) {
-                    const SizeT start = index;
+                // A placeholder is exactly "{d}" with d naming an existing sub tag; anything else is text.
+                if ((content[index] == TagPatterns::InLineFirstChar) && ((length - index) > SizeT{2}) &&
+                    (content[index + SizeT{2}] == TagPatterns::InLineLastChar)) {
+                    const SizeT id = SizeT(content[index + SizeT{1}] - DigitUtils::DigitChar::Zero);
 
-                    StringUtils::EscapeHTMLSpecialChars(*stream_, (content + last_index), (start - last_index));
-                    last_index = start;
-                    ++index;
+                    if (id < tag.SubTags.Size()) {
+                        const TagBit *sub_tag = (tag.SubTags.First() + id);
 
-                    if (index < length) {
-                        const SizeT id = SizeT(content[index] - DigitUtils::DigitChar::Zero);
-                        ++index;
+                        StringUtils::EscapeHTMLSpecialChars(*stream_, (content + last_index), (index - last_index));
+                        index += SizeT{3};
+                        last_index = index;
 
-                        if ((index < length) && (content[index] == TagPatterns::InLineLastChar)) {
-                            ++index;
+                        switch (sub_tag->GetType()) {
+                            case TagType::Variable: {
+                                const VariableTag &var = sub_tag->GetVariableTag();
+                                SizeT var_offset       = (var.Offset - TagPatterns::VariablePrefixLength);
+                                renderVariable(var, var_offset);
+                                break;
+                            }
 
-                            if (id < tag.SubTags.Size()) {
-                                const TagBit *sub_tag = (tag.SubTags.First() + id);
-                                last_index            = index;
+                            case TagType::RawVariable: {
+                                const VariableTag &r_var = sub_tag->GetVariableTag();
+                                SizeT r_var_offset       = (r_var.Offset - TagPatterns::RawVariablePrefixLength);
+                                renderRawVariable(r_var, r_var_offset);
+                                break;
+                            }
 
-                                switch (sub_tag->GetType()) {
-                                    case TagType::Variable: {
-                                        const VariableTag &var = sub_tag->GetVariableTag();
-                                        SizeT var_offset       = (var.Offset - TagPatterns::VariablePrefixLength);
-                                        renderVariable(var, var_offset);
-                                        break;
-                                    }
+                            case TagType::Math: {
+                                const MathTag &math        = sub_tag->GetMathTag();
+                                SizeT          math_offset = math.Offset;
+                                renderMath(math, math_offset);
+                                break;
+                            }
 
-                                    case TagType::RawVariable: {
-                                        const VariableTag &r_var = sub_tag->GetVariableTag();
-                                        SizeT r_var_offset = (r_var.Offset - TagPatterns::RawVariablePrefixLength);
-                                        renderRawVariable(r_var, r_var_offset);
-                                        break;
-                                    }
-
-                                    case TagType::Math: {
-                                        const MathTag &math        = sub_tag->GetMathTag();
-                                        SizeT          math_offset = math.Offset;
-                                        renderMath(math, math_offset);
-                                        break;
-                                    }
-
-                                    default: {
-                                    }
-                                }
-
-                                continue;
+                            default: {
                             }
                         }
+
+                        continue;
                     }
                 }
 
